@@ -14,7 +14,8 @@ CHECKS = {
               "form are interpreted against the real psutil code over a simulated kernel that logs each delivered signal and setting with the incarnation that received it; after each "
               "action: a recycled or gone object must raise NoSuchProcess with nothing delivered, a live one gets exactly one delivery with exactly the requested value, and no kill() "
               "with pid <= 0 ever occurs. A live tier kills real children with 16 signals. Search, not proof."
-              " Histories also contain Process.wait(), open oneshot() blocks and the caller continuing as a forked worker on a recycled PID."),
+              " Histories also contain Process.wait(), open oneshot() blocks and the caller continuing as a forked worker on a recycled PID."
+              " Actions are also attempted while one OS access about the PID fails with EMFILE/ENFILE/ENOMEM/EIO (nothing may reach a new owner)."),
         note=("Trusted: vlib/simk.py syscall model and delivery log, vlib/history.py. Reuse within one clock tick is documented as indistinguishable and not generated; what cpu_affinity([]) selects is left to C18."),
         design="DESIGN.md section 3 C01",
     ),
@@ -24,7 +25,8 @@ CHECKS = {
         text=("Generated histories of spawn/exit/reap/PID recycling, object creation at any point, system clock steps (the kernel's btime changes), boot_time(), create_time(), "
               "is_running(), process_iter(), str() and other calls are interpreted against the real code; after every step every pair of objects is compared (==, !=, hash) with "
               "the ghost incarnation ids, hashes must never change, is_running() must equal 'own incarnation still in the table' and never come back to True. Search, not proof."
-              " Histories also contain Process.wait(), open oneshot() blocks and the caller continuing as a forked worker on a recycled PID."),
+              " Histories also contain Process.wait(), open oneshot() blocks and the caller continuing as a forked worker on a recycled PID."
+              " Objects include psutil.Popen instances; is_running() is also asked while one access fails transiently."),
         note=("Trusted: vlib/simk.py, vlib/history.py. Reuse within one clock tick not generated; objects only for listed PIDs."),
         design="DESIGN.md section 3 C02",
     ),
@@ -56,7 +58,8 @@ CHECKS = {
         technique="property-based testing (Hypothesis) + exhaustive enumeration of small parent maps: generated process tables -> reference graph model; termination as an OS-access bound",
         text=("Generated process tables (arbitrary parent maps incl. self-loops, cycles, unlisted parents; start-time orders incl. ties; zombies), the caller's PID recycled after object creation "
               "and other processes vanishing at generated accesses during the walk are run through the real children/parent/parents over a simulated procfs and compared with a reference "
-              "graph model; all parent maps x start orders x callers for n<=3 (quick) / n<=4 (thorough) are enumerated exhaustively. Search, not proof, beyond those sizes."),
+              "graph model; all parent maps x start orders x callers for n<=3 (quick) / n<=4 (thorough) are enumerated exhaustively. Search, not proof, beyond those sizes."
+              " The same object may have answered ppid()/parent() before and the caller may get another parent before the questions (re-parenting)."),
         note=("Trusted: vlib/simk.py process table. Root (lowest listed PID) may answer None; parents() only on acyclic chains; paths through an excluded older node accepted either way."),
         design="DESIGN.md section 3 C05",
     ),
@@ -66,7 +69,7 @@ CHECKS = {
         text=("Generated stat/status/task records (hostile names, counters to 2^64-1, old-kernel layouts, 1..n threads) "
               "are served to the real psutil code through an interposed file layer; each listed method must return the model value. "
               "Search, not proof: bounded by the case counts in evidence."
-              " A third of the cases run right after another generated case in the same interpreter with only psutil's documented cross-call state reset (answers may not depend on what was observed before)."),
+              " A third of the cases run right after another generated case in the same interpreter with only psutil's documented cross-call state reset (answers may not depend on what was observed before). A quarter of the cases run with psutil.PROCFS_PATH pointing elsewhere (the literal /proc then does not exist)."),
         note=("Trusted: vlib/simk.py renderers (calibrated every run against live /proc/self/{stat,status} and live threads renamed "
               "with prctl), Hypothesis. Names are NUL-free and <= 15 bytes; kernels other than the sandbox's are modelled from proc(5)."),
         design="DESIGN.md section 3 C06",
@@ -87,7 +90,7 @@ CHECKS = {
         text=("Generated /proc/meminfo, /proc/vmstat and /proc/zoneinfo contents (any subset of optional fields, container-distorted magnitudes, zero totals) "
               "are parsed by the real code; every field, the percent rounding, the clamps, the watermark fallback and the warning text are compared with an independent model. "
               "Search, not proof."
-              " A third of the cases run right after another generated case in the same interpreter with only psutil's documented cross-call state reset (answers may not depend on what was observed before)."),
+              " A third of the cases run right after another generated case in the same interpreter with only psutil's documented cross-call state reset (answers may not depend on what was observed before). A quarter of the cases run with psutil.PROCFS_PATH pointing elsewhere (the literal /proc then does not exist)."),
         note=("Trusted: vlib/simk.py file layer, the model's reading of kernel commit 34e431b0ae; meminfo renderer calibrated byte-exactly against the live file. "
               "Values <= 2^50 kB; no blank meminfo lines."),
         design="DESIGN.md section 3 C08",
@@ -98,7 +101,7 @@ CHECKS = {
         text=("Generated device tables in every supported line layout are decoded by the real code and compared per device and in total (whole disks only) with column tables "
               "written from the kernel documentation; disk_usage arithmetic is checked on generated statvfs tuples. One recorded known finding (Linux 2.4 15-field layout) is "
               "excluded from the search and re-checked from its replay file. Search, not proof."
-              " A third of the cases run right after another generated case in the same interpreter with only psutil's documented cross-call state reset (answers may not depend on what was observed before)."),
+              " A third of the cases run right after another generated case in the same interpreter with only psutil's documented cross-call state reset (answers may not depend on what was observed before). A quarter of the cases run with psutil.PROCFS_PATH pointing elsewhere (the literal /proc then does not exist)."),
         note=("Trusted: vlib/simk.py file layer, proc(5)/iostats.txt column meanings. statvfs tuples satisfy bavail <= bfree <= blocks; unique device names."),
         design="DESIGN.md section 3 C09",
     ),
@@ -110,7 +113,8 @@ CHECKS = {
               "and checked for monotonicity. One recorded known finding (perdisk alternation) is excluded by construction. A second tier ENUMERATES every two-thread schedule "
               "of the form (thread A runs k source lines, raw counters grow, thread B completes, A completes) with the vlib.detsched line-level scheduler and requires values that existed "
               "during the calls and no inflation afterwards. Search, not proof, outside that schedule family."
-              " All two-thread line-level schedules with one pre-emption are enumerated for both functions."),
+              " All two-thread line-level schedules with one pre-emption are enumerated for both functions."
+              " Single-device stories (fields going backwards in successive snapshots, device gone and back) are generated as units."),
         note=("Trusted: vlib/simk.py file layer, c09 renderers. Presence of a device is observed at nowrap=True calls that return it."),
         design="DESIGN.md section 3 C10",
     ),
@@ -120,7 +124,7 @@ CHECKS = {
         text=("Generated TCP/UDP/UNIX socket tables (arbitrary and special addresses, port 0, all TCP states, UNIX paths with spaces and abstract names, odd short lines) with 0-4 holders "
               "per socket across readable and unreadable processes are parsed by the real code for one of the 11 kinds per case, system-wide and per-process; rows are compared as sets "
               "with the model; invalid kinds must raise ValueError. Search, not proof."
-              " A third of the cases run right after another generated case in the same interpreter with only psutil's documented cross-call state reset (answers may not depend on what was observed before)."),
+              " A third of the cases run right after another generated case in the same interpreter with only psutil's documented cross-call state reset (answers may not depend on what was observed before). A quarter of the cases run with psutil.PROCFS_PATH pointing elsewhere (the literal /proc then does not exist)."),
         note=("Trusted: vlib/simk.py, the /proc/net renderers (calibrated each run against live loopback IPv4/IPv6/UNIX sockets). Socket tuples unique per table; any visible holder accepted for inet sockets."),
         design="DESIGN.md section 3 C11",
     ),
@@ -130,7 +134,7 @@ CHECKS = {
         text=("Generated cmdline blobs (argv with empty args/spaces/non-UTF-8, rewritten titles), environment blocks, exe/cwd link targets (NUL garbage, ' (deleted)', withheld), "
               "exe() fallback candidates and 15-byte names (multi-byte, cut inside a character) are served to the real code; each public method is compared with the inverse of the "
               "kernel's rendering; exe() caching is checked by counting OS accesses of the second call. Search, not proof."
-              " A third of the cases run right after another generated case in the same interpreter with only psutil's documented cross-call state reset (answers may not depend on what was observed before)."),
+              " A third of the cases run right after another generated case in the same interpreter with only psutil's documented cross-call state reset (answers may not depend on what was observed before). A quarter of the cases run with psutil.PROCFS_PATH pointing elsewhere (the literal /proc then does not exist)."),
         note=("Trusted: vlib/simk.py process files and stat/access model. A single NUL-terminated argument containing spaces is accepted either way (documented ambiguity); "
               "environment entries starting with '=' are crash-freedom only."),
         design="DESIGN.md section 3 C12",
@@ -141,7 +145,7 @@ CHECKS = {
         text=("Generated statm tuples and smaps listings (repeated paths, paths with spaces/colons/' (deleted)', optional and non-kB lines, values to 2^40 kB, old-kernel line sets) with the "
               "roll-up file present or failing are parsed by the real code; memory_info, memory_full_info (both sources), memory_maps (both forms, conservation of sums) and memory_percent "
               "are compared with the model. Search, not proof."
-              " A third of the cases run right after another generated case in the same interpreter with only psutil's documented cross-call state reset (answers may not depend on what was observed before)."),
+              " A third of the cases run right after another generated case in the same interpreter with only psutil's documented cross-call state reset (answers may not depend on what was observed before). A quarter of the cases run with psutil.PROCFS_PATH pointing elsewhere (the literal /proc then does not exist)."),
         note=("Trusted: vlib/simk.py smaps/statm renderers, calibrated byte-exactly against the live /proc/self/smaps each run. The roll-up holds exact sums; all mappings of a process print the same set of lines."),
         design="DESIGN.md section 3 C13",
     ),
@@ -151,7 +155,7 @@ CHECKS = {
         text=("Generated fd tables of every target kind with offsets to 2^63 and access mode 0-3 x flag subsets, descriptors closing just before a generated OS access of the scan, and io files "
               "with blank/malformed/unknown lines are scanned by the real code over a simulated procfs; open_files/num_fds/io_counters are compared with the model. A live tier opens real "
               "descriptors with 36 flag combinations. Search, not proof."
-              " A third of the cases run right after another generated case in the same interpreter with only psutil's documented cross-call state reset (answers may not depend on what was observed before)."),
+              " A third of the cases run right after another generated case in the same interpreter with only psutil's documented cross-call state reset (answers may not depend on what was observed before). A quarter of the cases run with psutil.PROCFS_PATH pointing elsewhere (the literal /proc then does not exist)."),
         note=("Trusted: vlib/simk.py fd/fdinfo/io files and fault plan; for access mode 3 any mode string is accepted; a descriptor closing mid-scan may or may not be listed."),
         design="DESIGN.md section 3 C14",
     ),
@@ -161,7 +165,8 @@ CHECKS = {
         text=("wait()/wait_procs() run against a simulated waitpid/kill(0)/timer/sleep; the exit instant is generated on a grid around the deterministic polling instants and the deadline, "
               "for child / non-child / never-existed PIDs, exit codes 0-255 and signals 1-64, all timeout classes, EINTR on any subset of waitpid calls and repeated calls; the oracle "
               "checks status decoding, never-early return, caching without syscalls, TimeoutExpired fields and timing (>= deadline, <= deadline + 40 ms, process alive at the last completed "
-              "poll), the back-off sequence, timeout=0 without sleeps, and wait_procs partition / returncode / callback / elapsed rules. Live tier: values on 9 real children. Search, not proof."),
+              "poll), the back-off sequence, timeout=0 without sleeps, and wait_procs partition / returncode / callback / elapsed rules. Live tier: values on 9 real children. Search, not proof."
+              " Sleeps may last 50-300 % longer than asked (the deadline is a clock time; lateness bound = one such poll)."),
         note=("Trusted: vlib/simk.py waitpid/kill/virtual-time model (step-bounded, no wall clock). Real scheduler latency is not measured; a poll interrupted by EINTR is treated as carrying no information."),
         design="DESIGN.md section 3 C15",
     ),
@@ -172,7 +177,8 @@ CHECKS = {
               "equal what a plain call on a fresh object returns for the process state its source had when first read in the block; stat/status/smaps are opened at most once per clean block; "
               "caches must be gone after the block; as_dict keys, ad_value placement, NoSuchProcess propagation and validation-before-access are checked. (b) Schedules: a oneshot block or "
               "as_dict() in one thread, plain calls from 1-2 other threads and an optional kernel mutation, pre-empted at generated source lines of psutil/*.py: no spurious exception, every "
-              "value valid for some version between min(block start, call start) and call end. Search, not proof; bounded pre-emptions."),
+              "value valid for some version between min(block start, call start) and call end. Search, not proof; bounded pre-emptions."
+              " The name as_dict() must refuse is drawn from made-up names, private names and the public non-getter attributes (terminate, kill, wait, children, ...)."),
         note=("Trusted: vlib/simk.py, vlib/detsched.py. Pre-emption inside C calls is out of reach; create_time()/exe() memoised for life and not compared; inside a block, calls mixing a cached "
               "source with a different error state (zombie/denied/gone) are not compared. The 'first read' moment is observed on psutil's per-object cache."),
         design="DESIGN.md section 3 C16",
@@ -207,7 +213,7 @@ CHECKS = {
         text=("Generated hwmon/thermal/power_supply/cpufreq/cpuinfo/stat/topology trees (both directory nestings, any subset of optional files, unreadable and non-numeric files, "
               "zero thresholds, alternative battery file families, AC adapters, offline CPUs, sysconf failing) are served through an interposed os/glob/open layer to the real code, "
               "including the import-time sysfs variant of cpu_freq loaded as a second module copy; results are compared with the statement's arithmetic. Search, not proof."
-              " A third of the cases run right after another generated case in the same interpreter with only psutil's documented cross-call state reset (answers may not depend on what was observed before)."),
+              " A third of the cases run right after another generated case in the same interpreter with only psutil's documented cross-call state reset (answers may not depend on what was observed before). A quarter of the cases run with psutil.PROCFS_PATH pointing elsewhere (the literal /proc then does not exist)."),
         note=("Trusted: vlib/simk.py file/glob layer. The sandbox has no hwmon/thermal/battery/cpufreq, so there is no live tier; chip name files always present; fan inputs numeric; "
               "PYTHONHASHSEED fixed to 0 (set iteration order of trip points)."),
         design="DESIGN.md section 3 C19",
@@ -219,7 +225,8 @@ CHECKS = {
               "every public Process method fail with each errno (Windows error code), with the PID still listed as a zombie or not, a cached name or not, PID 0 listed or not: the exception must be "
               "NoSuchProcess / ZombieProcess / AccessDenied with pid and cached name, or the original error unchanged, per the per-platform contract. Records whose every slot holds a distinct "
               "value must surface in the documented named tuple fields according to slot tables hand-derived from the native builders. Front-end post-processing (MAC padding, Windows broadcast) "
-              "and documented name availability are checked per platform. Search, not proof."),
+              "and documented name availability are checked per platform. Search, not proof."
+              " Method x errno x call index is also enumerated per platform; two-step faults: procfs items vanishing then a different stat() error (SunOS/AIX), a Windows ERROR_PARTIAL_COPY retry failing with another error."),
         note=("Trusted: the stub native modules and slot tables in props/c20_platforms.py. The native C/Obj-C code of other platforms is not compiled or executed. A failure swallowed by a "
               "documented fall-back is counted, not judged; Windows ppid() (system-wide native call only) is crash-freedom only."),
         design="DESIGN.md section 3 C20",
